@@ -47,14 +47,15 @@ pub mod chan {
 #[verifier::external_body] pub fn vx_clone_namespaces(v: &HashSet<NodeId>) -> HashSet<NodeId> { unimplemented!() }
 /// stand-in for `updated.iter().all(|u| u.is_skipped())` (iterator adapter + closure): result arbitrary
 #[verifier::external_body] pub fn vx_all_skipped(v: &Vec<RefUpdate>) -> bool { unimplemented!() }
-pub enum Event { RefsFetched { remote: NodeId, rid: RepoId, updated: Vec<RefUpdate> } }
+pub enum Event { RefsFetched { remote: NodeId, rid: RepoId, updated: Vec<RefUpdate> }, PeerDisconnected { nid: NodeId, reason: String } }
 pub struct Emitter<T>(pub T);
 impl<T> Emitter<T> { #[verifier::external_body] pub fn emit(&self, e: T) { unimplemented!() } }
-pub enum DisconnectReason { Fetch(FetchError) }
+pub enum DisconnectReason { Dial(DialError), Fetch(FetchError), Connection(ConnError), Session(SessionError), Command, Conflict, SelfConnection }
 pub mod time { #[derive(Clone, Copy)] pub struct Duration; }
 #[derive(Clone, Copy)] pub struct FetchPackSizeLimit;
 pub struct Outbox;
 impl Outbox {
+    #[verifier::external_body] pub fn wakeup(&mut self, d: LocalDuration) { unimplemented!() }
     #[verifier::external_body] pub fn disconnect(&mut self, remote: NodeId, reason: DisconnectReason) { unimplemented!() }
     /// SINK (C13, C16): hands the fetch to the worker and calls Session::fetching(rid), which (unit `session`) panics unless the
     /// session is connected and not already fetching `rid`, and must stay within the per-peer concurrency limit.
@@ -66,7 +67,7 @@ impl Outbox {
             !old(peer).at_capacity(),               //[C16]
     { unimplemented!() }
 }
-pub struct Session { pub id: NodeId }
+pub struct Session { pub id: NodeId, pub link: Link, pub addr: Address }
 impl Session {
     pub uninterp spec fn connected(self) -> bool;
     pub uninterp spec fn at_capacity(self) -> bool;
@@ -80,6 +81,8 @@ impl Session {
     #[verifier::external_body] pub fn is_connecting(&self) -> (r: bool) ensures r ==> !self.connected() { unimplemented!() }
     #[verifier::external_body] pub fn is_at_capacity(&self) -> (r: bool) ensures r == self.at_capacity() { unimplemented!() }
     #[verifier::external_body] pub fn is_fetching(&self, rid: &RepoId) -> (r: bool) ensures r == self.fetching_rid(*rid) { unimplemented!() }
+    #[verifier::external_body] pub fn attempts(&self) -> usize { unimplemented!() }
+    #[verifier::external_body] pub fn to_disconnected(&mut self, since: LocalTime, retry_at: LocalTime) { unimplemented!() }
     /// per-session bookkeeping, verified in unit `session`
     #[verifier::external_body] pub fn fetched(&mut self, rid: RepoId) { unimplemented!() }
     #[verifier::external_body] pub fn queue_fetch(&mut self, f: QueuedFetch) -> (r: Result<(), QueueError>) requires f.from == old(self).id { unimplemented!() }
@@ -91,11 +94,15 @@ pub struct Sessions;
 impl Sessions {
     /// ghost: the session of `nid` (if any) records `rid` as being fetched
     pub uninterp spec fn fetching_from(self, nid: NodeId, rid: RepoId) -> bool;
+    /// ghost: the link of the session of `nid`, if there is a session
+    pub uninterp spec fn link_of(self, nid: NodeId) -> Option<Link>;
     /// ASSUMED: sessions are keyed by node id
     #[verifier::external_body]
     pub fn get_mut(&mut self, id: &NodeId) -> (r: Option<&mut Session>)
-        ensures r is Some ==> r->Some_0.id == *id && (forall|rid: RepoId| #[trigger] r->Some_0.fetching_rid(rid) == old(self).fetching_from(*id, rid))
+        ensures r is Some ==> r->Some_0.id == *id && (forall|rid: RepoId| #[trigger] r->Some_0.fetching_rid(rid) == old(self).fetching_from(*id, rid)),
+            (r is Some) == (old(self).link_of(*id) is Some), r is Some ==> Some(r->Some_0.link) == old(self).link_of(*id)
     { unimplemented!() }
+    #[verifier::external_body] pub fn remove(&mut self, id: &NodeId) -> Option<Session> { unimplemented!() }
 }
 // ---- std::collections::hash_map::Entry API, by contract (the std types hold a `&mut` into the map) --------------------
 pub struct VxVacant<'a> { pub map: &'a mut HashMap<RepoId, FetchState>, pub key: RepoId }
@@ -123,9 +130,41 @@ impl<'a> VxOccupied<'a> {
     { unimplemented!() }
 }
 pub struct NamespacesError;
+// ---- environment of Service::disconnected ---------------------------------------------------------------------------
+#[derive(Clone, Copy, PartialEq, Eq, Debug)] pub enum Link { Outbound, Inbound }
+/// ASSUMED (derive(PartialEq) on a fieldless enum): structural equality
+impl vstd::std_specs::cmp::PartialEqSpecImpl for Link { open spec fn obeys_eq_spec() -> bool { true } open spec fn eq_spec(&self, o: &Self) -> bool { *self == *o } }
+impl Link { #[verifier::external_body] pub fn is_outbound(&self) -> bool { unimplemented!() } }
+#[derive(Clone)] pub struct Address;
+#[derive(Clone, Copy)] pub struct LocalDuration { pub ms: u64 }
+pub const MIN_RECONNECTION_DELTA: LocalDuration = LocalDuration { ms: 3_000 };
+pub const MAX_RECONNECTION_DELTA: LocalDuration = LocalDuration { ms: 3_600_000 };
+/// stand-in for `LocalDuration::from_secs(2u64.saturating_pow(attempts as u32)).clamp(MIN, MAX)`: result arbitrary
+#[verifier::external_body] pub fn vx_backoff(attempts: usize) -> LocalDuration { unimplemented!() }
+/// stand-in for `since + delay` (LocalTime + LocalDuration)
+#[verifier::external_body] pub fn vx_time_add(t: LocalTime, d: LocalDuration) -> LocalTime { unimplemented!() }
+pub enum Severity { Low, Medium, High }
+pub struct SessionError; impl SessionError { #[verifier::external_body] pub fn severity(&self) -> Severity { unimplemented!() } }
+pub struct DialError; pub struct ConnError;
+/// stand-in for `format!("disconnected: {reason}")` / `reason.to_string()`
+#[verifier::external_body] pub fn vx_reason(reason: &DisconnectReason) -> String { unimplemented!() }
+pub mod address { pub struct Error; pub struct Store;
+    impl Store { #[verifier::external_body] pub fn disconnected(&mut self, nid: &crate::NodeId, addr: &crate::Address, sev: crate::Severity) -> Result<bool, Error> { unimplemented!() } } }
+/// ASSUMED (HashMap::retain with the lifted predicate `Service::vx_retain_step`): keeps exactly the entries for which the
+/// predicate returns true, leaving them unchanged; the predicate's contract is verified on the real closure body.
+#[verifier::external_body]
+pub fn vx_retain_not_from(m: &mut HashMap<RepoId, FetchState>, remote: NodeId, reason: &DisconnectReason)
+    ensures forall|k: RepoId| #[trigger] final(m)@.contains_key(k) <==> (old(m)@.contains_key(k) && old(m)@[k].from != remote),
+        forall|k: RepoId| #[trigger] final(m)@.contains_key(k) ==> final(m)@[k] == old(m)@[k],
+        forall|k: RepoId| #[trigger] old(m)@.contains_key(k) && old(m)@[k].from != remote ==> final(m)@.contains_key(k) && final(m)@[k] == old(m)@[k],
+{ unimplemented!() }
+
 pub struct Limits { pub fetch_pack_receive: FetchPackSizeLimit }
+pub struct PeerConfig;
 pub struct Config { pub limits: Limits }
+impl Config { #[verifier::external_body] pub fn peer(&self, nid: &NodeId) -> Option<&PeerConfig> { unimplemented!() } }
 pub struct Device<G>(pub G); pub struct Stores<D>(pub D);
+impl<D> Stores<D> { #[verifier::external_body] pub fn addresses_mut(&mut self) -> &mut address::Store { unimplemented!() } }
 pub trait Store {} pub trait ReadStorage {}
 pub mod crypto { pub struct Signature; pub mod signature { pub trait Signer<T> {} } }
 #[derive(Debug)] pub struct Error;
@@ -143,7 +182,15 @@ pub mod crypto { pub struct Signature; pub mod signature { pub trait Signer<T> {
 //@      #[verifier::external_body] fn seed_discovered(&mut self, rid: RepoId, nid: NodeId, time: Timestamp) { unimplemented!() }
 //@      #[verifier::external_body] fn add_inventory(&mut self, rid: RepoId) -> Result<bool, Error> { unimplemented!() }
 //@      #[verifier::external_body] fn announce_refs(&mut self, rid: RepoId, doc: Doc, namespaces: HashSet<NodeId>) -> Result<(), Error> { unimplemented!() }
-//@      #[verifier::external_body] pub fn dequeue_fetches(&mut self) { unimplemented!() }
+//@      /// starts queued fetches (through try_fetch, which only ever adds an entry for a repository that has none): ASSUMED to keep
+//@      /// every existing entry of the fetch table
+//@      #[verifier::external_body] pub fn dequeue_fetches(&mut self)
+//@          ensures forall|k: RepoId| #[trigger] old(self).fetching@.contains_key(k) ==> final(self).fetching@.contains_key(k) && final(self).fetching@[k] == old(self).fetching@[k]
+//@      { unimplemented!() }
+//@      #[verifier::external_body] pub fn local_time(&self) -> LocalTime { unimplemented!() }
+//@      #[verifier::external_body] pub fn is_online(&self) -> bool { unimplemented!() }
+//@      /// connection management: ASSUMED not to touch the fetch table
+//@      #[verifier::external_body] pub fn maintain_connections(&mut self) ensures final(self).fetching@ == old(self).fetching@ { unimplemented!() }
 //@      /// representation invariant linking the two fetch tables (from the statement of C16: one fetch per repository,
 //@      /// attributed to one peer): a session records `rid` as being fetched only if the service's table maps `rid` to that peer
 //@      pub open spec fn wf(self) -> bool {
@@ -160,6 +207,37 @@ pub mod crypto { pub struct Signature; pub mod signature { pub trait Signer<T> {
 //@        r is Ok ==> !old(self).fetching@.contains_key(rid) && final(self).fetching@ == old(self).fetching@.insert(rid, *final(r->Ok_0)) && r->Ok_0.from == *from //[C16]
 //@        r matches Err(TryFetchError::SessionNotConnected) ==> final(self).fetching@ == old(self).fetching@ //[C16]
 //@        r matches Err(TryFetchError::SessionCapacityReached) ==> final(self).fetching@ == old(self).fetching@ //[C16]
+//@      head
+//@        proof { ids_lawful(); }
+//@    fn disconnected
+//@      attr #[verifier::exec_allows_no_decreases_clause]
+//@      # the predicate closure of `retain` is lifted (body verbatim) so that it can carry a contract; `retain` itself by contract
+//@      lift_closure vx_retain_step self\.fetching\.retain\(
+//@        sig (_k: &RepoId, fetching: &mut FetchState, remote: NodeId, reason: &DisconnectReason) -> (keep: bool)
+//@        head
+//@          proof { ids_lawful(); }
+//@        ensures
+//@          keep == (old(fetching).from != remote)
+//@          *final(fetching) == *old(fetching)
+//@      body_sub self\.fetching\.retain\(Self::vx_retain_step => vx_retain_not_from(&mut self.fetching, remote, reason
+//@      body_sub for resp in &fetching\.subscribers => for resp in fetching.subscribers.iter()
+//@      body_sub format!\("disconnected: \{reason\}"\) => vx_reason(reason)
+//@      body_sub reason\.to_string\(\) => vx_reason(reason)
+//@      body_sub (?s)LocalDuration::from_secs\(2u64\.saturating_pow\(session\.attempts\(\) as u32\)\)\s*\.clamp\(MIN_RECONNECTION_DELTA, MAX_RECONNECTION_DELTA\) => vx_backoff(session.attempts())
+//@      body_sub since \+ delay => vx_time_add(since, delay)
+//@      ensures
+//@        # C16: a disconnect event never cancels a fetch that runs on another peer's session ...
+//@        forall|k: RepoId| #[trigger] old(self).fetching@.contains_key(k) && old(self).fetching@[k].from != remote ==> final(self).fetching@.contains_key(k) && final(self).fetching@[k] == old(self).fetching@[k] //[C16]
+//@        # ... and cancels nothing at all when it is about the other link of a connection crossing (the session stays up)
+//@        # or about a peer without a session
+//@        old(self).sessions.link_of(remote) != Some(link) ==> final(self).fetching@ == old(self).fetching@ //[C16]
+//@        # ... while a disconnect of the session's own link leaves no fetch attributed to that peer behind (before queued fetches are started)
+//@      hint? 1 if self\.config\.peer\(&remote\)\.is_some\(\)
+//@        assert forall|k: RepoId| #[trigger] old(self).fetching@.contains_key(k) && old(self).fetching@[k].from != remote implies self.fetching@.contains_key(k) && self.fetching@[k] == old(self).fetching@[k] by {}
+//@      hint? 1 if link\.is_outbound\(\)
+//@        assert forall|k: RepoId| #[trigger] old(self).fetching@.contains_key(k) && old(self).fetching@[k].from != remote implies self.fetching@.contains_key(k) && self.fetching@[k] == old(self).fetching@[k] by {}
+//@      hint? 1 self\.dequeue_fetches\(\);
+//@        assert forall|k: RepoId| #[trigger] old(self).fetching@.contains_key(k) && old(self).fetching@[k].from != remote implies self.fetching@.contains_key(k) && self.fetching@[k] == old(self).fetching@[k] by {}
 //@      head
 //@        proof { ids_lawful(); }
 //@    fn queue_fetch
